@@ -195,10 +195,20 @@ def rand_frame(rng, code=None, small=False):
     if code in (PADDING, PING, HANDSHAKE_DONE):
         f = []
     elif code in (ACK, ACK_ECN):
+        # a well-formed ACK never computes a negative packet number (RFC 9000 19.3.1; the decoder rejects it)
         n = rng.choice([0, 0, 1, 2, 5, 63, 64, 70]) if not small else rng.choice([0, 1, 2])
-        f = [v(), v(), v(), n]
+        largest = v() if n < 5 else max(v(), 1 << 20)     # room for the 63/64/70-range forms
+        first = (min(v(), largest) if n < 5 and rng.random() < 0.7 else rng.randint(0, min(largest, 300)))
+        smallest = largest - first
+        rs = []
         for _ in range(n):
-            f += [v(), v()]
+            if smallest < 2:
+                break
+            g = min(v(), smallest - 2) if rng.random() < 0.3 else rng.randint(0, min(smallest - 2, 70))
+            a = min(v(), smallest - 2 - g) if rng.random() < 0.3 else rng.randint(0, min(smallest - 2 - g, 70))
+            rs += [g, a]
+            smallest -= g + 2 + a
+        f = [largest, v(), first, len(rs) // 2] + rs
         f += ([1, v(), v(), v()] if code == ACK_ECN else [0])
     elif code == RESET_STREAM:
         f = [v(), v(), v()]
